@@ -34,11 +34,11 @@ pub fn level_of(id: &str) -> &'static str {
 }
 
 pub fn has_wire_tier(id: &str) -> bool {
-    matches!(id, "C03" | "C04" | "C05" | "C06" | "C07" | "C08" | "C10" | "C12" | "C15" | "C16" | "C18" | "C20")
+    matches!(id, "C03" | "C04" | "C05" | "C06" | "C07" | "C08" | "C10" | "C12" | "C15" | "C16" | "C17" | "C18" | "C20")
 }
 
 pub fn has_net_tier(id: &str) -> bool {
-    matches!(id, "C05" | "C08" | "C10" | "C12" | "C18" | "C20")
+    matches!(id, "C05" | "C08" | "C10" | "C12" | "C17" | "C18" | "C20")
 }
 
 /// Enter the private namespaces if this property has a wire tier.  Ok(true) = wire available.
@@ -190,6 +190,10 @@ pub fn run_check(id: &str, tier: Tier) -> i32 {
             ctx.rule("build: generated interface sections (every field absent/null/value; lifetimes {0,1,8,600,1800,9000,9001,65535,65536,4294967,4294968,2^31,2^32-1,2^32,random} written as integers, '<n>s', mixed units or digit strings; 0..6 prefixes of any length with and without host bits; RDNSS 0..8 incl. $self6; DNSSL domains of 1..8 labels; PREF64 lengths {32,40,48,56,64,96}; URLs 0..240 octets) plus top-level defaults, rendered to YAML, loaded through the real loader, built by the pure builder, serialised, and decoded by a decoder written from RFC 4861/8106/8781/8910; oracle: decoded == expected(config), reserved fields zero, unrepresentable values rejected or clamped; non-trivial = >= 3 option kinds in the message or an unrepresentable value");
             ctx.assume("the mtu / lifetime tri-state resolution against interface and routing table lives in the impure wrapper and is decided by the wire tier; the hook takes the resolved values as parameters");
             props_ra::run_c17_func(&ctx);
+            if wire_ok && ctx.violations.lock().unwrap().is_empty() {
+                ctx.rule("wire-ra: the nine mtu x lifetime tri-state combinations (absent / null / value) configured for the server-side interface of the veth rig on the real erbium (thorough: plus 60 generated interface sections); a router solicitation is injected as a raw frame, the advertisement captured: hop limit 255, ICMPv6 checksum verifies, body decoded by the RFC decoder and compared with expected(config) where mtu absent => interface MTU, null => no option; lifetime absent/null => 0 (no default route in the rig)");
+                props_netwire::run_c17_wire(&ctx);
+            }
         }
         "C19" => {
             ctx.rule("load-and-serve: (1) the manual's examples, the shipped example file (as is and uncommented) and a full-grammar document must load; (2) complete single-substitution family over them (every node replaced by each wrong type / empty collection / boundary number / hostile string, every key replaced or deleted); (3) generated double substitutions; (4) generated byte/token mutations of the texts; every document goes through the real loader, every accepted configuration is used to serve DHCP (DISCOVER/REQUEST on the first host of every configured prefix, with every configured hardware address, all options requested), to build and serialise an RA per interface, and to decide ACLs for IPv4/IPv6/mapped/unix clients; oracle: Ok or Err with text, no panic; non-trivial = rejected by a typed section parser or accepted and served");
